@@ -854,6 +854,10 @@ WRITTEN_H_STRINGS = [
 
 # molecules whose formula is known by hand (reference by construction): every atom of the result counted
 FORMULA_STRINGS = [
+    ("{[#A]}.{#A=Cl}", {"Cl": 1, "H": 1}),                                                         # hydrogen chloride: a halogen without any bond
+    ("{[#A].[#B]}.{#A=Br,#B=CC}", {"Br": 1, "C": 2, "H": 7}),                                      # hydrogen bromide next to ethane
+    ("{[#A]}.{#A=I[$]}", {"I": 1, "H": 1}),                                                        # surplus descriptor on a halogen
+    ("{[#A][#B]}.{#A=[$]CC[$],#B=[$]F}", {"C": 2, "F": 1, "H": 5}),                                # fluoroethane
     ("{[#A][#B]}.{#A=[$]Cc1c[nH]cc1,#B=[$]CC}", {"C": 7, "H": 11, "N": 1}),                       # 3-propylpyrrole
     ("{[#A]|3}.{#A=[$]CC[$]Cc1c[nH]cn1}", {"C": 18, "H": 26, "N": 6}),                            # vinyl-type trimer, imidazole pendants
     ("{[#A][#B]}.{#A=[$]C[N+](C)(C)C,#B=[$]CC(=O)[O-]}", {"C": 6, "H": 13, "N": 1, "O": 2}),       # betaine
